@@ -25,19 +25,19 @@ type XMLWtr2 struct {
 func XmlName(d meta.Definition) xml.Name {
 	return xml.Name{
 		Local: d.Ident(),
-		Space: meta.OriginalModule(d).Namespace(),
+		Space: meta.DefiningModule(d).Namespace(),
 	}
 }
 
 // WriteXMLDoc includes the xml of the selection root
 func WriteXMLDoc(s *node.Selection, pretty bool) (string, error) {
-	ns := meta.OriginalModule(s.Meta()).Namespace()
+	ns := meta.DefiningModule(s.Meta()).Namespace()
 	w := XMLWtr2{
 		XMLName: xml.Name{
 			Local: s.Meta().Ident(),
 			Space: ns,
 		},
-		ns: meta.OriginalModule(s.Meta()).Namespace(),
+		ns: meta.DefiningModule(s.Meta()).Namespace(),
 	}
 	if err := s.UpsertInto(&w); err != nil {
 		return "", err
@@ -87,7 +87,7 @@ func (x *XMLWtr2) Child(r node.ChildRequest) (node.Node, error) {
 func (x *XMLWtr2) new(m meta.Definition) *XMLWtr2 {
 	w := XMLWtr2{
 		EnumAsIds: x.EnumAsIds,
-		ns:        meta.OriginalModule(m).Namespace(),
+		ns:        meta.DefiningModule(m).Namespace(),
 	}
 	if w.ns != x.ns {
 		w.XMLName = xml.Name{
@@ -133,7 +133,7 @@ func (x *XMLWtr2) writeFieldElement(m meta.Definition, v val.Value) error {
 	switch v.Format() {
 	case val.FmtIdentityRef:
 		id := v.String()
-		leafMod := meta.OriginalModule(m)
+		leafMod := meta.DefiningModule(m)
 		bases := identityBases(m)
 		idty := meta.FindIdentity(bases, id)
 		if idty == nil {
